@@ -73,6 +73,8 @@ class World:
         self.notes = []
         self.log = []            # event log (for determinism digests)
         self.orders_seen = set()
+        self.copy_caches = {}    # (src, dst) -> memo dict passed to dd._copy.copy_bdd
+        self.copy_cache_tt = {}  # (src, dst) -> {source node: function it denoted when memoized}
         n0 = cfg.get('declared', self.nv)
         for i in range(cfg.get('n_mgrs', 2)):
             self.new_manager(i, [self.names[k] for k in range(n0)]
@@ -93,6 +95,8 @@ class World:
     def new_manager(self, idx, declared, ctor=None):
         D = seams.DD
         if idx < len(self.mgrs):
+            for key in [k for k in self.copy_caches if idx in k]:
+                del self.copy_caches[key]
             # replacing a manager nobody holds: let parked handles of the old
             # one be finalized first, so that it is not collected together
             # with them (finalization order inside one collection is arbitrary)
@@ -201,6 +205,15 @@ class World:
         for (mm, u), c in self.limbo.items():
             if mm == m and c:
                 led[u] += c
+        # handles that the user keeps in a memo shared between copy calls
+        F = seams.DD.autoref.Function
+        seen = {id(s.ref) for s in self.slots if s.m == m}
+        for (src, dst), cache in self.copy_caches.items():
+            if dst == m:
+                for v in cache.values():
+                    if type(v) is F and v.node is not None and id(v) not in seen:
+                        seen.add(id(v))
+                        led[abs(v.node)] += 1
         return led
 
     def touch(self, m=None):
@@ -502,6 +515,12 @@ class World:
         ev = seams.QUIET.drain()
         for e in ev:
             if e[0] == 'warning' and e[1] in ('DeprecationWarning', 'PendingDeprecationWarning', 'ResourceWarning'):
+                continue
+            if e[0] == 'unraisable' and e[1] == 'AttributeError' and "has no attribute 'node'" in e[2]:
+                # a Function whose constructor refused its argument has no
+                # attributes when it is finalized: noise on stderr, no state
+                # is touched, and no listed property speaks of it
+                self.stats['noise_del_of_refused_function'] += 1
                 continue
             self.fail('I-quiet', f'{e}', props)
 
